@@ -64,8 +64,8 @@ META.update({
     },
     "C05": {
         "text": "Soundness of dirty tracking: for every mutating op through an accessor derived by ANY chain (Tracks invariant proved preserved by every derivation), every changed byte lies on a page that is dirty afterwards, "
-                "for every page size and interleaved resets (ghost-snapshot invariant over histories); failing descriptor reads mark their whole target (44 theorems). "
-                "Tied by slice-world and guest-memory histories with page sizes 1..>size, four bitmap flavours, random data, resets; diff-driven oracle on every region's bitmap.",
+                "for every page size and interleaved resets (ghost-snapshot invariant over histories); failing descriptor reads mark their whole target (44 theorems); and, because every operation stores BEFORE it marks, it stays sound with any number of concurrent harvests between its store and its mark, whereas mark-then-store is refuted by a concrete counter-example (Props/C05h, 45 theorems). "
+                "Tied by slice-world and guest-memory histories with page sizes 1..>size, five bitmap flavours (one of them a probe written against the public traits that snapshots the marked bytes at mark time, so the store/mark ORDER is observed), random data, resets; diff-driven oracle on every region's bitmap.",
         "design_ref": "DESIGN.md 6/C05", "note": PROOF_NOTE + "Raw-pointer/reference writes are exempt by the statement.",
         "technique": "Lean 4 invariant (bitmap offset tracks address) + per-op effect lemmas + differential run with diff-driven oracle",
     },
